@@ -31,11 +31,14 @@ def deep(x):
         return (type(x).__name__, tuple(deep(v) for v in x))
     return x
 def snap(o):
-    """every observable datum of a model / sample set / Variables, in order"""
+    """every observable datum of a model / sample set / Variables (or of a tuple of them), in order"""
+    if isinstance(o, tuple):
+        return ('tuple',) + tuple(snap(x) for x in o)
     if isinstance(o, SampleSet):
         return ('ss', o.record.tobytes(), str(o.record.dtype), tuple(map(repr, o.variables)), deep(o.info), o.vartype.name)
     if isinstance(o, ConstrainedQuadraticModel):
-        return ('cqm', snap(o.objective), tuple((repr(l), c.sense.value, float(c.rhs), snap(c.lhs), c.lhs.is_soft() and (c.lhs.weight(), c.lhs.penalty())) for l, c in o.constraints.items()),
+        return ('cqm', snap(o.objective), tuple((repr(l), c.sense.value, float(c.rhs), snap(c.lhs), (c.lhs.is_soft(), c.lhs.weight(), c.lhs.penalty()) if c.lhs.is_soft() else None, bool(c.lhs.is_discrete())) for l, c in o.constraints.items()),
+                tuple(sorted(map(repr, o.discrete))),
                 tuple((repr(v), o.vartype(v).name, float(o.lower_bound(v)), float(o.upper_bound(v))) for v in o.variables))
     if isinstance(o, dimod.variables.Variables):
         return ('vars', tuple(map(repr, o)))
@@ -75,18 +78,22 @@ def gen_qm(r, name='m'):
             if r.random() < .5 and (i != j or vs[i][1] == 'INTEGER') and 'REAL' not in (vs[i][1], vs[j][1]):
                 src += f'{name}.add_quadratic({vs[i][0]!r}, {vs[j][0]!r}, {r.randint(-8, 8) / 4!r})\n'
     src += f'{name}.offset = {r.randint(-4, 4) / 2!r}'
-    return src, [v for v, _ in vs], None
+    return src, [v for v, _ in vs], [t for _, t in vs]
 
 
 def gen_cqm(r, name='m'):
-    src, vs, _ = gen_qm(r, 'q0')
+    src, vs, vts = gen_qm(r, 'q0')
+    allbin = all(t == 'BINARY' for t in vts)       # a quadratic penalty is only allowed on binary constraints
     src += f'\n{name} = dimod.ConstrainedQuadraticModel()\n{name}.set_objective(q0)\n'
     for k in range(r.randint(1, 3)):
-        s2, _, _ = gen_qm(r, f'q{k + 1}')
-        # constraints over the same label family so that vartypes agree
-        src += '\n'.join(ln for ln in s2.splitlines() if 'add_variable' not in ln and 'add_quadratic' not in ln and 'add_linear' not in ln) + '\n'
         src += f"q{k + 1} = dimod.QuadraticModel()\nq{k + 1}.update(q0)\nq{k + 1}.scale({r.choice([1, 2, -1])})\n"
-        src += f"{name}.add_constraint(q{k + 1}, {r.choice(['<=', '>=', '=='])!r}, {r.randint(-2, 2)}, label='c{k}')\n"
+        soft = r.random() < .5
+        extra = f", weight={r.choice([0.5, 2.0, 3.25])!r}, penalty={r.choice(['linear', 'quadratic'] if allbin else ['linear'])!r}" if soft else ''
+        src += f"{name}.add_constraint(q{k + 1}, {r.choice(['<=', '>=', '=='])!r}, {r.randint(-2, 2)}, label='c{k}'{extra})\n"
+    if r.random() < .6:
+        # a discrete (one-hot) constraint over fresh binary variables, and a soft linear one over them
+        src += f"{name}.add_discrete(['dA', 'dB', 'dC'], label='disc')\n"
+        src += f"{name}.add_constraint_from_iterable([('dA', 1.0), ('dB', 2.0)], '<=', 1, label='softd', weight=1.5, penalty={r.choice(['linear', 'quadratic'])!r})\n"
     return src.rstrip(), vs, None
 
 
@@ -157,8 +164,18 @@ def model_calls(kind, vs, vt, r):
         calls += [
             ('spin_to_binary(inplace=False)', 'res = m.spin_to_binary(inplace=False)', 'inplacefalse', False),
             ('fix_variables(inplace=False)', f'res = m.fix_variables({{{v0!r}: 1}}, inplace=False)', 'inplacefalse', False),
+            ('fix_variables(discrete member, inplace=False)', "res = m.fix_variables({'dA': 0}, inplace=False)", 'inplacefalse', False),
         ]
-    return calls
+    expected = {
+        'relabel_variables(inplace=False)': f'exp = copy.deepcopy(m); exp.relabel_variables({relabel!r}, inplace=True)',
+        'relabel_variables_as_integers(inplace=False)': 'exp = copy.deepcopy(m); exp.relabel_variables_as_integers(inplace=True)',
+        'change_vartype(inplace=False)': f"exp = copy.deepcopy(m); exp.change_vartype({('BINARY' if vt == 'SPIN' else 'SPIN')!r}, inplace=True)",
+        'change_vartype(same, inplace=False)': f'exp = copy.deepcopy(m); exp.change_vartype({vt!r}, inplace=True)',
+        'spin_to_binary(inplace=False)': 'exp = copy.deepcopy(m); exp.spin_to_binary(inplace=True)',
+        'fix_variables(inplace=False)': f'exp = copy.deepcopy(m); exp.fix_variables({{{v0!r}: 1}}, inplace=True)',
+        'fix_variables(discrete member, inplace=False)': "exp = copy.deepcopy(m); exp.fix_variables({'dA': 0}, inplace=True)",
+    }
+    return [c + (expected.get(c[0]),) for c in calls]
 
 
 def model_edits(kind, r, vs, target, k):
@@ -230,7 +247,7 @@ def fresh(src, code):
     return env
 
 
-def check_call(ctx, r, kind_name, site, src, code, recv, plain_copy, edits_fn, nscripts):
+def check_call(ctx, r, kind_name, site, src, code, recv, plain_copy, edits_fn, nscripts, expected=None):
     """the generic protocol: receiver unchanged, equal result for plain copies, edit scripts on either side"""
     try:
         env = fresh(src, f'before = snap({recv})\n' + code + f'\nafter = snap({recv})\nsres = snap(res)')
@@ -239,7 +256,7 @@ def check_call(ctx, r, kind_name, site, src, code, recv, plain_copy, edits_fn, n
         return None
     ctx.tick(site)
     if env['after'] != env['before']:
-        ctx.fail('property', site, 'receiver changed by the call', f'{env["before"]!r} -> {env["after"]!r}',
+        ctx.fail('property', site, 'an input changed by the call' if recv.startswith('(') else 'receiver changed by the call', f'{env["before"]!r} -> {env["after"]!r}',
                  repro=PRE + src + f'\nbefore = snap({recv})\n' + code + f'\nassert snap({recv}) == before, "receiver changed"', detail=dict(source=src, call=code))
         return env
     def canon(t):
@@ -250,23 +267,35 @@ def check_call(ctx, r, kind_name, site, src, code, recv, plain_copy, edits_fn, n
         ctx.fail('property', site, 'result differs from the receiver', f'{env["sres"]!r} != {env["before"]!r}',
                  repro=PRE + src + '\n' + code + f'\nS = lambda t: (sorted(t[2]), t[3:]) if t[0] == "model" else t\nassert S(snap(res)) == S(snap({recv})), (snap(res), snap({recv}))', detail=dict(source=src, call=code))
         return env
+    if expected is not None:
+        # `inplace=False` must be "deep copy, then the in-place call" — every field, incl. soft weights / penalties / discrete marks
+        try:
+            env_e = fresh(src, expected)
+            if snap(env_e['exp']) != env['sres']:
+                ctx.fail('property', site, 'result differs from deepcopy + in-place call', f'{env["sres"]!r} != {snap(env_e["exp"])!r}',
+                         repro=PRE + src + '\n' + code + '\n' + expected + '\nassert snap(res) == snap(exp), (snap(res), snap(exp))',
+                         detail=dict(source=src, call=code, expected=expected))
+                return env
+            ctx.tick(site + ' == deepcopy+inplace')
+        except Exception:  # noqa: the in-place variant is not applicable
+            pass
     for k in range(nscripts):
         for side in (0, 1):
             edited, watched = (recv, 'res') if side == 0 else ('res', recv)
             lines = edits_fn(r, edited)
             env2 = fresh(src, code)
-            w0 = snap(env2[watched])
+            w0 = snap(eval(watched, env2))
             done = run_lines(env2, lines)
             ctx.case((site, side, tuple(done), src), nontrivial=bool(done), sample=dict(source=src.splitlines()[-1][:200], call=code, edits=done) if k == 0 and side == 1 else None)
-            w1 = snap(env2[watched])
+            w1 = snap(eval(watched, env2))
             if w1 != w0:
                 # find the first edit that is visible
                 culprit = None
                 for j in range(1, len(done) + 1):
                     env3 = fresh(src, code)
-                    w = snap(env3[watched])
+                    w = snap(eval(watched, env3))
                     run_lines(env3, done[:j])
-                    if snap(env3[watched]) != w:
+                    if snap(eval(watched, env3)) != w:
                         culprit = done[j - 1]; done = done[:j]
                         break
                 nested = culprit is not None and (".info['n']" in culprit or ".info['arr'][" in culprit)
@@ -343,6 +372,45 @@ def ss_edits(r, target, labels, k=3):
             out.append(f"{target}.relabel_variables({{{labels[0]!r}: 'ED'}}, inplace=True)")
         elif e == 'change_vartype':
             out.append(f"{target}.change_vartype('SPIN' if {target}.vartype is dimod.BINARY else 'BINARY', inplace=True)")
+    return out
+
+
+def check_multi_ss(ctx, r, nscripts):
+    """functions that build a new SampleSet from SEVERAL existing ones: every input must stay bit-for-bit unchanged by
+    the call and by later edits of the result, and the result must be independent of every input"""
+    src, labels, vt = gen_ss(r, 'a', m=r.choice([1, 3, 4]))
+    n = len(labels)
+    parts = [src]
+    names = ['a']
+    for j in range(r.randint(1, 2)):
+        vt2 = {'SPIN': 'BINARY', 'BINARY': 'SPIN'}.get(vt, vt) if r.random() < .6 else vt        # mixed vartypes: concatenate coerces
+        labs2 = r.sample(labels, n)                                                                  # differing column order
+        dom = {'SPIN': [-1, 1], 'BINARY': [0, 1], 'INTEGER': [-2, 0, 3]}[vt2]
+        m2 = r.choice([1, 2, 4])
+        rows = [[r.choice(dom) for _ in range(n)] for _ in range(m2)]
+        dt = "a.record.sample.dtype"
+        parts.append(f"o{j} = dimod.SampleSet.from_samples((np.array({rows!r}, dtype={dt}).reshape({m2}, {n}), {labs2!r}), {vt2!r}, "
+                     f"energy=np.array({[r.randint(-8, 8) / 4 for _ in range(m2)]!r}, dtype=float), num_occurrences=np.array({[1] * m2!r}, dtype=int), "
+                     f"sort_labels=False, info={{'n': {{'k': [1, 2]}}, 'arr': np.array([1, 2, 3]), 'x': 5}}, idx=np.arange({m2}) + {100 * (j + 1)})")
+        names.append(f'o{j}')
+    ma = int(src.split('.reshape(')[1].split(',')[0])
+    parts.append(f"extra = dimod.SampleSet.from_samples((np.ones(({ma}, 2), dtype='int8'), ['XA', 'XB']), {('BINARY' if vt != 'SPIN' else 'SPIN')!r}, energy=np.zeros({ma}), "
+                 f"info={{'n': {{'k': [1, 2]}}, 'arr': np.array([1, 2, 3]), 'x': 5}}, idx=np.arange({ma}) + 900)")
+    full = '\n'.join(parts)
+    allin = '(' + ', '.join(names) + ',)'
+    calls = [
+        ('dimod.concatenate(several)', f"res = dimod.concatenate([{', '.join(names)}])", allin, names),
+        ('dimod.concatenate(several, reversed)', f"res = dimod.concatenate([{', '.join(reversed(names))}])", allin, names),
+        ('dimod.concatenate(same set twice)', 'res = dimod.concatenate([a, a])', '(a,)', ['a']),
+        ('dimod.append_variables(SampleSet)', 'res = dimod.append_variables(a, extra)', '(a, extra)', ['a', 'extra']),
+        ('SampleSet.from_samples(SampleSet)', 'res = dimod.SampleSet.from_samples(a, a.vartype, energy=a.record.energy, info=copy.deepcopy(a.info), idx=a.record.idx)', '(a,)', ['a']),
+    ]
+    out = []
+    for site, code, recv, ins in calls:
+        env = check_call(ctx, r, 'ss', site, full, code, recv, False,
+                         lambda rr, target, ins=ins, labels=labels: ss_edits(rr, rr.choice(ins) if target.startswith('(') else target,
+                                                                              ['XA'] if False else labels), nscripts)
+        out.append((site, code, env, names))
     return out
 
 
@@ -429,9 +497,13 @@ def check_add_to_cqm(ctx, r, lines, expect, meta):
                        ('ConstrainedQuadraticModel.add_constraint(comparison)', "m = dimod.ConstrainedQuadraticModel()\nlab = m.add_constraint(b <= 1, label='c0')")]:
         for side in (0, 1):
             try:
-                env = fresh(src, code)
+                env = fresh(src, 'b_before = snap(b)\n' + code)
             except TypeError:
                 break           # object-dtype models cannot be added to a CQM
+            if snap(env['b']) != env['b_before']:
+                ctx.fail('property', site, 'source model changed by the call', f"{env['b_before']!r} -> {snap(env['b'])!r}",
+                         repro=PRE + src + '\nw = snap(b)\n' + code + '\nassert snap(b) == w', detail=dict(source=src, call=code))
+                break
             if side == 0:
                 edits = model_edits('bqm', r, vs, 'b', 3)
                 watched = 'm'
@@ -474,12 +546,14 @@ def run(ctx):
             osrc = gen_bqm(r, 'other')[0] if kind == 'bqm' else gen_qm(r, 'other')[0]
             if kind == 'bqm':
                 osrc += f"\nother = dimod.BinaryQuadraticModel(other.linear, other.quadratic, other.offset, {vt!r})"
-            for name, code, mop, plain in model_calls(kind, vs, vt, r):
+            for name, code, mop, plain, expected in model_calls(kind, vs, vt, r):
                 cls = {'bqm': 'BinaryQuadraticModel', 'qm': 'QuadraticModel', 'cqm': 'ConstrainedQuadraticModel'}[kind]
                 site = f'{cls}.{name}'
                 full = src + ('\n' + osrc if 'other' in code else '')
-                env = check_call(ctx, r, 'model', site, full, code, 'm', plain and kind != 'cqm' or (plain and kind == 'cqm'),
-                                 lambda rr, target, kind=kind, vs=vs: model_edits(kind, rr, vs, target, 3), nscripts)
+                two = 'other' in code
+                env = check_call(ctx, r, 'model', site, full, code, '(m, other)' if two else 'm', plain,
+                                 lambda rr, target, kind=kind, vs=vs: model_edits(kind, rr, vs, rr.choice(['m', 'other']) if target.startswith('(') else target, 3),
+                                 nscripts, expected=expected)
                 if env is not None and kind != 'cqm' and 'res' in env and hasattr(env['res'], 'data') and hasattr(env['m'], 'data'):
                     m, res = env['m'], env['res']
                     lines.append('model ' + mop)
@@ -495,6 +569,15 @@ def run(ctx):
             if env is not None and op is not None and 'res' in env:
                 ln, obs, rows = ss_alias_line(env, op)
                 lines.append(ln); expect.append((obs, rows)); meta.append(site)
+        for site, code, env, names in check_multi_ss(ctx, r, nscripts):
+            if env is not None and 'res' in env and site.startswith('dimod.concatenate(several'):
+                res = env['res']
+                order = names if 'reversed' not in site else list(reversed(names))
+                first = env[order[0]]
+                spec = ';'.join(f"{len(env[nm])}:{int(env[nm].vartype is not first.vartype)}:{int(list(env[nm].variables) != list(first.variables))}" for nm in order[1:])
+                lines.append(f'concatin {len(first)} {spec}')
+                shared = int(any(np.shares_memory(res.record, env[nm].record) for nm in names))
+                expect.append((f'ok shared={shared} inputs_unchanged=1', None)); meta.append(site)
         if len([f for f in ctx.failures if f['kind'] == 'property']) >= 25:
             break
     got = run_driver('storedriver', lines)
